@@ -26,18 +26,18 @@ type FlowOpts struct {
 	KeepAlive          uint16
 	Publishers         int
 	PerPub             int
-	Q2                 int // permille of persisted publishes at exactly-once level
-	Retain             int // permille
-	BigPayload         int // permille of payloads in the KiB range
-	BreakW             int // weight of the environment action "break connection"
-	PartW              int // weight of the environment action "partition" (the connection goes silent)
-	FaultFrom          int // faults only from this step on (the budget otherwise drains on the first opportunities)
+	Q2                 int  // permille of persisted publishes at exactly-once level
+	Retain             int  // permille
+	BigPayload         int  // permille of payloads in the KiB range
+	BreakW             int  // weight of the environment action "break connection"
+	PartW              int  // weight of the environment action "partition" (the connection goes silent)
+	FaultFrom          int  // faults only from this step on (the budget otherwise drains on the first opportunities)
 	InWindow           int  // the broker's in-flight window: no new message while that many QoS 1/2 transactions are open (0: unlimited)
 	ReuseIDs           bool // the broker reuses packet identifiers as soon as their transaction is complete
 	LazyResend         bool // the broker postpones the retransmission of messages the application holds unacknowledged
 	Budget             int
 	SelectMode         uint32
-	StarveP            int // scheduler: permille per step of holding one goroutine back for a stretch
+	StarveP            int  // scheduler: permille per step of holding one goroutine back for a stretch
 	Backoff            bool // reader uses ReadBackoff
 	ClientID           string
 	Requesters         int // tasks issuing Subscribe/Unsubscribe/Ping/Publish
@@ -159,7 +159,7 @@ type Flow struct {
 	LastReadTime                 map[int]time.Duration
 	HoldFinalAcks                bool
 	HoldUntilLastGen             bool // PUBACK and PUBCOMP are withheld in every incarnation but the last
-	LoadDamage                   int // Load results altered in flight
+	LoadDamage                   int  // Load results altered in flight
 	lastSeq                      uint64
 	Closers                      []*Closer
 	ClosedAt                     int // step at which the first Close/Disconnect returned
@@ -356,6 +356,7 @@ func drawFlowOpts(t *Tape, thorough bool) FlowOpts {
 	if t.Flip("f-wbreak", 400) {
 		o.Net.WriteBreak = 30
 	}
+	o.Net.SlowClose = t.Flip("slowclose", 400)
 	if t.Flip("f-dial", 400) {
 		o.Net.DialFail = 250
 		o.Net.DialHang = 100
@@ -1307,6 +1308,12 @@ func (f *Flow) issue(s *Sim, name string, r *Req) {
 			r.Err = f.C.Ping(quit)
 		}
 	}()
+	if s.dead {
+		// the call came back only because the incarnation was unwound
+		// (Close releases whoever waits): as far as the run goes it never
+		// returned
+		return
+	}
 	r.Ret = w.Steps
 	r.RetTime = s.Now()
 	if r.Kind == rkPing && r.Err != nil && r.pongMet != 0 && !errors.Is(r.Err, mqtt.ErrMax) {
